@@ -178,7 +178,7 @@ def check_C02(res, ctx):
     for i in range(n):
         rng = rng_for(ctx.seed, "C02", i)
         cfg = engine.rand_cfg(rng, io=(1 if i % 5 == 4 else 0))
-        g = engine.Gen(rng, cfg, nkeys=rng.choice([3, 8, 20]), weights={"reopen": 6, "merge": 1},
+        g = engine.Gen(rng, cfg, nkeys=rng.choice([3, 8, 20]), weights={"reopen": 6, "merge": 1, "badopen": 1},
                        max_val=(3 * engine.BS if i % 3 else 1200))
         ops = g.history(steps)
         # final restart under yet another configuration
@@ -616,6 +616,30 @@ def check_C14(res, ctx):
                           {"ops_a": ops0, "ops_b": transcripts[1][1]})
         if i < 1:
             res.sample({"body_head": body[:15], "configs": [t[0] for t in transcripts]})
+    # cursor scripts (Seek / Rewind / Next / prefix / reverse, writes behind the cursors) under every index type
+    from . import itercheck
+    for i in range(6 if ctx.quick else 80):
+        rng = rng_for(ctx.seed, "C14it", i)
+        ops, exp = itercheck.db_level(rng, "OPEN", 40 if ctx.quick else 120)
+        outs_by = []
+        for idx in (1, 2, 3):
+            cfg = {"fs": 65536, "sync": 0, "bps": 0, "idx": idx, "io": 0, "shards": rng.choice([1, 3, 16])}
+            o2 = [engine.open_line("d", cfg)] + ops[1:]
+            bdir = ctx.scratch.fresh()
+            try:
+                outs = run_impl(o2, bdir)
+            finally:
+                ctx.scratch.drop(bdir)
+            res.case("it%d|%d" % (i, idx), True)
+            res.count("cursor_scripts:idx%d" % idx)
+            outs_by.append((cfg, o2, outs))
+        c0, o0, t0 = outs_by[0]
+        for cfg, o2, t in outs_by[1:]:
+            for (op, a, b) in zip(ops, t0, t):
+                if a != b:
+                    res.violation("same cursor calls, different results: `%s` -> %s under %s but %s under %s" % (op, a[:200], c0, b[:200], cfg),
+                                  {"ops_a": o0, "ops_b": o2, "first_difference": op})
+                    break
     # shard count normalisation
     vals = [1, 2, 3, 4, 5, 15, 16, 17, 31, 33, 511, 512, 513, 1023, 1024, 1025, 4096, 65535, 1 << 20, 1 << 31]
     exact_check(res, ctx, "nextPowerOfTwo", ["ix.npot %d" % v for v in vals],
